@@ -440,7 +440,7 @@ func (st *State) eqValue(a, b Value) *Term {
 		y := b.(*ArrayV)
 		r := tt.True
 		for i := range x.E {
-			r = tt.And(r, st.eqValue(x.E[i], y.E[i]))
+			r = tt.And(r, st.eqValue(x.get(i), y.get(i)))
 		}
 		return r
 	case SliceV: // only vs nil
@@ -587,7 +587,7 @@ func (st *State) strByte(arr *ArrayV, off *Term, i int) *Term {
 	if off.IsConst() {
 		k := int(off.Val) + i
 		if k < len(arr.E) {
-			return arr.E[k].(*Term)
+			return arr.get(k).(*Term)
 		}
 		return st.tt.Const(0, 8)
 	}
@@ -599,13 +599,17 @@ func (st *State) strByte(arr *ArrayV, off *Term, i int) *Term {
 func (st *State) symReadClamp(arr *ArrayV, idx *Term) *Term {
 	if idx.IsConst() {
 		if idx.Val < uint64(len(arr.E)) {
-			return arr.E[idx.Val].(*Term)
+			return arr.get(int(idx.Val)).(*Term)
 		}
 		return st.tt.Const(0, 8)
 	}
 	res := st.tt.Const(0, 8)
-	for i := len(arr.E) - 1; i >= 0; i-- {
-		res = st.tt.Ite(st.tt.Eq(idx, st.tt.Const(uint64(i), 64)), arr.E[i].(*Term), res)
+	n := len(arr.E)
+	if n > 64 {
+		n = st.idxBound(idx, n)
+	}
+	for i := n - 1; i >= 0; i-- {
+		res = st.tt.Ite(st.tt.Eq(idx, st.tt.Const(uint64(i), 64)), arr.get(i).(*Term), res)
 	}
 	return res
 }
@@ -881,7 +885,7 @@ func (st *State) sliceOp(fr *Frame, x *ssa.Slice) Value {
 // elemAt reads element (off+i) of a slice backing array for concrete i.
 func (st *State) sliceElem(arr *ArrayV, off *Term, i int) Value {
 	if off.IsConst() {
-		return arr.E[int(off.Val)+i]
+		return arr.get(int(off.Val)+i)
 	}
 	return st.symRead(arr, st.tt.Bin(OpAdd, off, st.tt.Const(uint64(i), 64)))
 }
@@ -920,13 +924,14 @@ func (st *State) builtinCopy(dst SliceV, src Value) *Term {
 	if n.IsConst() {
 		maxN = int(n.Val)
 	}
+	dstBound := len(dArr.E)
 	// read first (memmove semantics)
 	vals := make([]Value, maxN)
 	for i := 0; i < maxN; i++ {
 		if sOff.IsConst() {
 			k := int(sOff.Val) + i
 			if k < len(sArr.E) {
-				vals[i] = sArr.E[k]
+				vals[i] = sArr.get(k)
 			} else {
 				vals[i] = nil
 			}
@@ -944,12 +949,15 @@ func (st *State) builtinCopy(dst SliceV, src Value) *Term {
 			if k >= len(dArr.E) {
 				continue
 			}
-			dArr.E[k] = st.merge(in, copyValue(vals[i]), dArr.E[k])
+			dArr.E[k] = st.merge(in, copyValue(vals[i]), dArr.get(k))
 		} else {
 			pos := tt.Bin(OpAdd, dst.Off, tt.Const(uint64(i), 64))
-			for k := range dArr.E {
+			if i == 0 {
+				dstBound = st.idxBound(dst.Off, len(dArr.E))
+			}
+			for k := 0; k < len(dArr.E) && k < dstBound+i; k++ {
 				c := tt.And(in, tt.Eq(pos, tt.Const(uint64(k), 64)))
-				dArr.E[k] = st.merge(c, copyValue(vals[i]), dArr.E[k])
+				dArr.E[k] = st.merge(c, copyValue(vals[i]), dArr.get(k))
 			}
 		}
 	}
@@ -1167,7 +1175,7 @@ func sameCell(a, b Value) bool {
 			return false
 		}
 		for i := range x.E {
-			if !sameCell(x.E[i], y.E[i]) {
+			if !sameCell(x.get(i), y.get(i)) {
 				return false
 			}
 		}
